@@ -1,13 +1,20 @@
 """Apply each behaviour-preserving refactor in /tmp/benign_out/<ID>/patch.diff (or /verif/benign/<ID>/patch.diff) to /repo, run the property's
 quick check - which must exit 0 with no VIOLATION line -, revert.  Usage: tools/benigncheck.py [ids...]"""
 import sys, os, subprocess, json, time
-ids = sys.argv[1:] or ['C%02d' % i for i in range(1, 21)]
+srcdir = None
+args = []
+for a in sys.argv[1:]:
+    if a.startswith('--src='):
+        srcdir = a.split('=', 1)[1]
+    else:
+        args.append(a)
+ids = args or (sorted(os.listdir('/verif/benign')) if not srcdir else ['C%02d' % i for i in range(1, 21)])
 def run(cmd, **kw):
     return subprocess.run(cmd, shell=True, capture_output=True, text=True, **kw)
 assert run('git -C /repo status --porcelain').stdout.strip() == '', 'repo not clean'
 bad = []
 for pid in ids:
-    src = '/verif/benign/%s' % pid if os.path.exists('/verif/benign/%s/patch.diff' % pid) else '/tmp/benign_out/%s' % pid
+    src = ('%s/%s' % (srcdir, pid)) if srcdir else ('/verif/benign/%s' % pid if os.path.exists('/verif/benign/%s/patch.diff' % pid) else '/tmp/benign_out/%s' % pid)
     if not os.path.exists(src + '/patch.diff'):
         print(pid, 'no patch'); continue
     ap = run('git -C /repo apply %s/patch.diff' % src)
